@@ -377,7 +377,7 @@ func checkC19(c *Ctx) {
 		var g []string
 		if ok {
 			g = AtomStrings(GuardsOfBlock(direct.Block()))
-			ok = len(g) == 1 && g[0] == "IsAbs("+raw.Name()+")" 
+			ok = len(g) == 1 && g[0] == "IsAbs("+raw.Name()+")"
 			// and the parse is only reached when it is not absolute
 			pg := false
 			var site ssa.Instruction = parse
